@@ -440,10 +440,7 @@ func main() {
 		})
 		// Valid <=> round trip
 		syms := []string{"0", "1", "a", "-", ".", "+", "é"}
-		VL := 3
-		if !r.Quick() {
-			VL = 4
-		}
+		VL := 4
 		var strs []string
 		var gen func(cur string, n int)
 		gen = func(cur string, n int) {
